@@ -112,6 +112,7 @@ def main(argv=None):
     unconfirmed_lemmas = []
     known_hit = {}
     replays_done = 0
+    antecedent_totals = {}
     for r in results:
         ob = r["ob"]
         twin = bool(ob.get("params", {}).get("twin"))
@@ -124,10 +125,10 @@ def main(argv=None):
             r["verdict"] = "twin-ok" if v == "counterexample" else v
             continue
         if v == "confirmed":
-            need = ob.get("antecedents", [])
-            for name in need:
-                if not (r.get("counters") or {}).get(name):
-                    harness_errors.append("%s: antecedent counter %s is zero: monitor never exercised" % (r["id"], name))
+            base = r["id"].split("#")[0]
+            for name in ob.get("antecedents", []):
+                key = (base, name)
+                antecedent_totals[key] = antecedent_totals.get(key, 0) + int((r.get("counters") or {}).get(name) or 0)
             continue
         if v == "counterexample":
             if ob["kind"] == "e2c":
@@ -153,6 +154,10 @@ def main(argv=None):
             harness_errors.append("%s: inconclusive (%s)" % (r["id"], r.get("message") or r.get("messages")))
         else:
             harness_errors.append("%s: %s" % (r["id"], json.dumps(r.get("error"))[:1500]))
+
+    for (base, name), n in sorted(antecedent_totals.items()):
+        if n == 0:
+            harness_errors.append("%s: antecedent counter %s is zero: the monitor was never exercised (vacuous)" % (base, name))
 
     # known findings: replay each listed witness natively, report those that still fail
     known_lines = []
